@@ -370,7 +370,7 @@ procedure FinishJob(fj) {
 fj_lock:     \* [fres] SchedulerFutureSignaller::signal (or its drop, cancelling), [ready] UnsafeJob::drop
   if (jkind[fj] \in {"fut", "slot"}) {
     with (w = fwaker[fj]) {
-      fres[fj] := IF jpanic[fj] THEN "cancelled" ELSE "some"; fwaker[fj] := NoW;
+      fres[fj] := IF jpanic[fj] /\ jkind[fj] = "fut" THEN "cancelled" ELSE "some"; fwaker[fj] := NoW;
       if (IsLocking(w)) { call Wake(w); }
       else { parkTok := Unpark(parkTok, TaskOf(w)); }
     }
@@ -380,7 +380,7 @@ fj_lock:     \* [fres] SchedulerFutureSignaller::signal (or its drop, cancelling
     return;
   };
 z_fj_chk:
-  if (jpanic[fj]) { return; };
+  if (jpanic[fj] /\ jkind[fj] = "fut") { return; };
 fj_sigdrop:  \* [fres] the signaller is dropped after signalling: the result is already set
   return;
 }
@@ -2225,7 +2225,7 @@ RunJob(self) == z_rj(self) \/ z_rj_ret(self) \/ z_slot2(self)
 fj_lock(self) == /\ pc[self] = "fj_lock"
                  /\ IF jkind[fj[self]] \in {"fut", "slot"}
                        THEN /\ LET w == fwaker[fj[self]] IN
-                                 /\ fres' = [fres EXCEPT ![fj[self]] = IF jpanic[fj[self]] THEN "cancelled" ELSE "some"]
+                                 /\ fres' = [fres EXCEPT ![fj[self]] = IF jpanic[fj[self]] /\ jkind[fj[self]] = "fut" THEN "cancelled" ELSE "some"]
                                  /\ fwaker' = [fwaker EXCEPT ![fj[self]] = NoW]
                                  /\ IF IsLocking(w)
                                        THEN /\ /\ stack' = [stack EXCEPT ![self] = << [ procedure |->  "Wake",
@@ -2258,7 +2258,7 @@ fj_lock(self) == /\ pc[self] = "fj_lock"
                                  sctx, xf, pf, pctx, pq, pj, pd, nq >>
 
 z_fj_chk(self) == /\ pc[self] = "z_fj_chk"
-                  /\ IF jpanic[fj[self]]
+                  /\ IF jpanic[fj[self]] /\ jkind[fj[self]] = "fut"
                         THEN /\ pc' = [pc EXCEPT ![self] = Head(stack[self]).pc]
                              /\ fj' = [fj EXCEPT ![self] = Head(stack[self]).fj]
                              /\ stack' = [stack EXCEPT ![self] = Tail(stack[self])]
